@@ -167,7 +167,7 @@ class C13(Prop):
             if tool not in ctx.c13_tables or not ctx.c13_tables[tool]["options"]:
                 fails.append(Failure("obligation", "no ESL_OPTIONS table found for %s" % tool, key="optables:" + tool))
         ctx.c13_stats = {"by_tool": {}, "by_class": {}, "combos": set(), "ref_cases": 0, "ref_checked_ops": 0,
-                         "search_cases": 0, "options_seen": set()}
+                         "search_cases": 0, "options_seen": set(), "sweep": {}}
         return fails
 
     # -------------------------------------------------------------------------------------------------
@@ -197,8 +197,9 @@ class C13(Prop):
     def compare(self, ctx, case, impl_out, model_out):
         """Model lines: 'ok' for file/save ops, 'nopred' when the reference has no prediction for that invocation,
         'rc=0 out=<hex>' otherwise (complete stdout)."""
-        if not case.get("ref"):
-            return None          # search cases: the reference functions are specifications for VALID inputs only
+        if not case.get("ref") or case.get("expect_err"):
+            return None          # search cases: the reference functions are specifications for VALID inputs only; option
+                                 # combinations that the tool's own table forbids must be refused (monitor), there is nothing to predict
         n = max(len(impl_out), len(model_out))
         for i in range(n):
             a = impl_out[i] if i < len(impl_out) else "<missing>"
@@ -210,6 +211,12 @@ class C13(Prop):
             if a.startswith("rc="):
                 ka = parse_result(a)
                 kb = parse_result(b)
+                if "232043505520" in (ka.get("out") or ""):      # "# CPU time: ..." (esl_stopwatch_Display): not part of the prediction
+                    try:
+                        t = re.sub(rb"(?m)^# CPU time: [^\n]*\n", b"", bytes.fromhex(ka["out"]))
+                        ka["out"] = t.hex() if t else "-"
+                    except ValueError:
+                        pass
                 ctx.c13_stats["ref_checked_ops"] += 1
                 if ka.get("rc") != kb.get("rc") or ka.get("out") != kb.get("out"):
                     return (i, "rc=%s out=%s" % (ka.get("rc"), _show(ka.get("out"))), "rc=%s out=%s" % (kb.get("rc"), _show(kb.get("out"))))
@@ -289,6 +296,7 @@ class C13(Prop):
                         "reference_cases": st["ref_cases"], "reference_invocations_compared_exactly": st["ref_checked_ops"],
                         "search_cases": st["search_cases"], "by_class": st["by_class"], "by_tool": st["by_tool"],
                         "distinct_tool_class_firstline": len(st["combos"]),
+                        "option_sweep": st.get("sweep", {}),
                         "half_A": "theorems about reference functions + exact stdout comparison (proof + tie)",
                         "half_B": "search only (support): not a theorem"}}
 
